@@ -900,7 +900,8 @@ def cells_C09(tier, consts):
         if t == "unsigned":
             if tier == "thorough":
                 C("lemma_compose", "h_lemma_compose", None, ["affine_mul", "affine_apply"])   # recorded attempt (cubic ring identity: undecided in the probes)
-            C("lemma_factories", "h_lemma_factories", None, ["affine_translation", "affine_scaling", "mat_identity", "affine_apply"])
+            if n <= 3:   # N=4: cvc5 exhausts memory, cadical times out
+                C("lemma_factories", "h_lemma_factories", None, ["affine_translation", "affine_scaling", "mat_identity", "affine_apply"])
     return cells
 
 
